@@ -49,6 +49,7 @@ EVENTS = {
     "IP": ["IP", {1: 2.1, 2: 3.1}, 1],
     "IP0": ["IP", {}, 1],  # in-play, SP not available
     "RM1": ["RM", 1, 30.0],
+    "SUSRM1": ["M", [["SUS"], ["RM", 1, 30.0]]],  # non-runner declared in a SUSPENDED book with a new version
     "RM2": ["RM", 2, 20.0],
     "RM2s": ["RM", 2, 2.0],
     "CL": ["CL", {1: "WINNER", 2: "LOSER"}],
